@@ -821,6 +821,11 @@ def r20_19(run, model):
             var = t.split(".")[0]
             inside = any(var in S.pat_bindings(l["pat"]) for l in S.find(loops[0], "Local")) or \
                 (loops[0]["k"] == "For" and var in S.pat_bindings(loops[0]["pat"]))
+            # a node that wraps the accumulator it is assigned to (`call = ECall { func: call, .. }` per argument list) is the same
+            # place of the source again, not a child of it
+            asg = next((a for a in par.ancestors(st) if a["k"] == "Assign"), None)
+            if asg is not None and asg["left"]["k"] == "Path" and len(asg["left"]["segs"]) == 1 and asg["left"]["segs"][0] in S.idents(st):
+                continue
             run.ob("R20.19", f"{f.name}|{st['segs'][-1]} built per element has a pointer of its own", inside, site(LOWER, st["sp"]),
                    f"astptr: `{t}`, declared {'inside' if inside else 'outside'} the loop that builds the node",
                    witness="let Point { x, y } = p: hover on x answers `Point`, the type recorded for the struct pattern that shares the pointer")
